@@ -426,27 +426,47 @@ def engine_tables_rule(ctx, rid):
     fam = [aae] + [x for x in ctx.res.slice([aae]) if x.module is aae.module and x is not aae]
     for x in fam:
         ctx.touch(x)
-    sub_tests, bad_tests = [], []
-    for fn in fam:
-        for n in ast.walk(fn.node):
-            if isinstance(n, ast.Compare) and len(n.ops) == 1 and isinstance(n.ops[0], (ast.In, ast.NotIn)) and isinstance(n.left, ast.Name):
-                # `ext in file_name` with ext ranging over the extension table
-                rng = None
-                for lp in ast.walk(fn.node):
-                    if isinstance(lp, (ast.For, ast.comprehension)) and isinstance(lp.target, ast.Name) and lp.target.id == n.left.id:
-                        rng = norm(lp.iter)
-                if rng == "_engine_extensions.values()" and isinstance(n.comparators[0], ast.Name):
-                    sub_tests.append(n)
-            if isinstance(n, ast.Call) and isinstance(n.func, ast.Attribute) and n.func.attr in ("endswith", "startswith") and fn in fam:
-                bad_tests.append((fn, n))
-    appended = any("_engine_extensions[engine]" in norm(n) for fn in fam for n in ast.walk(fn.node) if isinstance(n, (ast.AugAssign, ast.Assign, ast.Return, ast.BinOp)))
-    if bad_tests:
-        fn, n = bad_tests[0]
-        rr.bad(ctx.finding(rid, fn, n, "auto_add_extension decides with `%s` instead of 'the name contains a known extension': names such as data.h5.tmp or data.h5.BAK-... get a second extension, so saving, loading, merging and deleting no longer agree on the file" % norm(n), construct="auto-add-extension"), "auto_add_extension")
-    elif sub_tests and appended:
-        rr.ok("auto_add_extension appends _engine_extensions[engine] iff no known extension occurs in the name")
+    # evaluated, by the analyser's own interpreter, on a table of representative names x engines: the extension is appended
+    # iff the name contains none of the known extensions (the documented behaviour all callers rely on)
+    from ..util import IntEval, callee_func
+    need(len(aae.positional) == 2, "idiom changed: auto_add_extension signature")
+    p_name, p_eng = aae.positional
+
+    def call_fn(fn, args):
+        def on_call(c_, ev_, st_):
+            cf = callee_func(ctx, fn, c_)
+            if cf is not None and cf.module is aae.module and not c_.keywords:
+                r_ = call_fn(cf, [ev_.ev(a_, st_) for a_ in c_.args])
+                return r_
+            return NotImplemented
+        ev = IntEval({"_engine_extensions": dict(engines)}, on_call)
+        body = [b_ for b_ in fn.node.body if not (isinstance(b_, ast.Expr) and isinstance(b_.value, ast.Constant))]
+        res = ev.run(body, dict(zip(fn.positional, args)))
+        if res[0] == "return":
+            return res[1]
+        if res[0] == "fall":
+            return None
+        raise AnalysisError("auto_add_extension raises on %r" % (args,))
+    table = []
+    for eng, ext in sorted(engines.items()):
+        table += [("data", eng, "data" + ext), ("/scratch/run/data" + ext, eng, "/scratch/run/data" + ext), ("data" + ext + ".tmp", eng, "data" + ext + ".tmp")]
+        for eng2, ext2 in sorted(engines.items()):
+            if eng2 != eng:
+                table.append(("res" + ext2, eng, "res" + ext2))      # carries another engine's extension already: left alone
+    wrong = []
+    try:
+        for name_, eng_, want_ in table:
+            got_ = call_fn(aae, [name_, eng_])
+            if got_ != want_:
+                wrong.append((name_, eng_, got_, want_))
+    except AnalysisError as ex_:
+        raise AnalysisError("idiom changed: auto_add_extension cannot be evaluated (%s)" % ex_)
+    if wrong:
+        name_, eng_, got_, want_ = wrong[0]
+        rr.bad(ctx.finding(rid, aae, aae.node, "auto_add_extension(%r, %r) gives %r, expected %r (the engine's extension is appended iff the name contains no known extension): saving, loading, merging and deleting no longer agree on the file, "
+                           "or names such as data.h5.tmp get a second extension" % (name_, eng_, got_, want_), construct="auto-add-extension"), "auto_add_extension")
     else:
-        raise AnalysisError("idiom changed: auto_add_extension")
+        rr.ok("auto_add_extension evaluated on %d representative (name, engine) pairs: extension appended iff the name contains no known extension" % len(table))
     # attribute rewriting: exactly None / True / False by identity, netCDF engines only
     sd = prog.need_func(MAN + ".save_ds")
     fam = [sd] + [x for x in ctx.res.slice([sd]) if x.module is sd.module and x is not sd and x is not aae]
@@ -496,7 +516,22 @@ def engine_tables_rule(ctx, rid):
         g = build_cfg(sd.node)
         guards = [n for n in g.nodes if n.kind == "test" and "engine" in norm(n.ast) and "joblib" in norm(n.ast) and "zarr" in norm(n.ast)]
         if guards:
-            rr.ok("attribute rewriting: exactly None / True / False (identity tests) -> their names, under the non-joblib / non-zarr guard")
+            # the guard holds exactly for the engines that go through xarray's netCDF writer
+            from ..util import IntEval
+            wrong = []
+            for eng in sorted(engines):
+                try:
+                    gv = bool(IntEval({"engine": eng}).ev(guards[0].ast, {}))
+                except AnalysisError as ex_:
+                    raise AnalysisError("idiom changed: guard of the attribute rewriting `%s` cannot be evaluated (%s)" % (norm(guards[0].ast), ex_))
+                want_ = eng not in ("joblib", "zarr")
+                if gv is not None and gv != want_:
+                    wrong.append((eng, gv))
+            if wrong:
+                rr.bad(ctx.finding(rid, sd, guards[0].ast, "the guard of the attribute rewriting `%s` is %s for engine %r: None / True / False attributes are turned into strings for an engine that stores them natively, or left as they are for a netCDF engine (which then fails to save)" % (
+                    norm(guards[0].ast), wrong[0][1], wrong[0][0]), construct="attr-rewrite-guard"), "attr rewriting guard")
+            else:
+                rr.ok("attribute rewriting: exactly None / True / False (identity tests) -> their names, under the non-joblib / non-zarr guard (evaluated per engine)")
         else:
             rr.bad(ctx.finding(rid, sd, sd.node, "attributes are rewritten for every engine, not only for the netCDF ones", construct="attr-rewrite-guard"), "attr rewriting guard")
     else:
@@ -619,8 +654,22 @@ def loader_errors_rule(ctx, rid, cls="Harvester"):
         else:
             rr.bad(ctx.finding(rid, f, c, "a failure of `%s` is caught (%s) and %s returns normally as if no file existed: after a transient read error (lock, I/O error, too many open files) the next synced save replaces the file with the new points only, "
                                "dropping everything harvested before" % (norm(c)[:50], ", ".join(norm(h.type) if h.type is not None else "bare except" for h in handlers) or "handler", lname), construct="load-error-swallowed"), "%s load errors" % lname)
-    # the loader only ever replaces the in-memory data by what it loaded
+    # the public view (property full_ds / full_df) loads from disk exactly when nothing is held in memory
     attr = {"Harvester": "_full_ds", "Sampler": "_full_df"}[cls]
+    pv = ctx.prog.need_cls("%s.%s" % (FARM, cls)).methods.get(attr.lstrip("_"))
+    if pv is not None:
+        gp = build_cfg(pv.node)
+        ctx.touch(pv, gp)
+        seen_ = {}
+        for val_, tag_ in ((NONE, "empty"), (NOTNONE, "held")):
+            flp_ = Flow(gp, {"self." + attr: val_}).run()
+            seen_[tag_] = any(nm_ == "%s.%s.%s" % (FARM, cls, lname) and n_.id in flp_.visited for n_, c_, nm_ in all_calls(ctx, pv, gp))
+        if seen_ == {"empty": True, "held": False}:
+            rr.ok("%s loads from disk exactly when memory is empty" % pv.name)
+        elif seen_ == {"empty": False, "held": True}:
+            rr.bad(ctx.finding(rid, pv, pv.node, "the %s property loads from disk when data *is* held in memory (replacing it) and not when memory is empty: a fresh %s on an existing file shows no data" % (pv.name, cls), construct="view-load-polarity"), "%s view" % cls)
+        elif seen_ == {"empty": False, "held": False}:
+            rr.bad(ctx.finding(rid, pv, pv.node, "the %s property never loads the file: a fresh %s on an existing file shows no data" % (pv.name, cls), construct="view-never-loads"), "%s view" % cls)
     for st in ast.walk(f.node):
         if isinstance(st, ast.Assign) and any(path_key(t) == "self." + attr for t in st.targets):
             if any(isinstance(x, ast.Call) and callee_name(ctx, f, x) == loader for x in ast.walk(st.value)):
